@@ -1,6 +1,8 @@
 package dedupkey
 
 import (
+	"errors"
+
 	"github.com/ipld/go-ipld-prime/datamodel"
 	"github.com/ipld/go-ipld-prime/node/basicnode"
 )
@@ -17,5 +19,9 @@ func EncodeDedupKey(key string) (datamodel.Node, error) {
 
 // DecodeDedupKey returns a string key decoded from cbor data
 func DecodeDedupKey(data datamodel.Node) (string, error) {
+	// a null extension value decodes to a nil node
+	if data == nil {
+		return "", errors.New("did not receive a dedup key")
+	}
 	return data.AsString()
 }
